@@ -161,7 +161,10 @@ WideEnum(sorted) ==
   EnumT([i \in 1..130 |-> IF i = 130 THEN VariantT(WideV(0), "tuple", VFields("tuple", <<U8>>), <<>>, FALSE)
                            ELSE VariantT(WideV(130 - i), "unit", <<>>, <<>>, FALSE)], sorted)
 EnumsWide == {WideEnum(FALSE), WideEnum(TRUE)}
-EnumDecls == EnumsPlain \cup EnumsTransient \cup EnumsEvolved \cup EnumsFromStructs \cup EnumsWide
+\* transient fields inside tuple and struct variants (every non-empty subset of the positions of two-field shapes)
+EnumsFieldTransient == {EnumT(<<VariantT(VName(67), "unit", <<>>, <<>>, FALSE), VariantOf(X, sh)>>, FALSE) :
+                          X \in {Y \in DeclsB : Len(Y.fields) = 2}, sh \in {"tuple", "struct"}}
+EnumDecls == EnumsPlain \cup EnumsTransient \cup EnumsEvolved \cup EnumsFromStructs \cup EnumsWide \cup EnumsFieldTransient
 
 AllDecls == StructDecls \cup EnumDecls
 
@@ -257,7 +260,7 @@ MapVal(E, E2, v) == LET j == CHOOSE j \in 1..Len(E2.variants) : E2.variants[j].n
 IsNew(E, E2, j) == \A i \in 1..Len(E.variants) : E.variants[i].n # E2.variants[j].n
 ExtensionSafe ==
   D.k = "enum" => \A E2 \in Extensions(D) :
-    /\ \A v \in Good : LET d == Decode(E2, Encode(D, v).b) IN d.ok /\ d.v = MapVal(D, E2, v)
+    /\ \A v \in Good : LET d == Decode(E2, Encode(D, v).b) IN d.ok /\ d.v = MapVal(D, E2, Masked(D, v))
     /\ \A w \in {x \in EnumVals(E2) : IsNew(D, E2, x[2])} : Decode(D, Encode(E2, w).b) = DErr("BadCtor")
 \* indices the definition does not know, transient ones
 UnknownIdx == {U32(Len(D.variants)), U32(Len(D.variants) + 1), <<1, 0>>, <<15, P28 - 1>>}
@@ -276,7 +279,7 @@ Case(v) ==
 XCases ==   \* cross-definition cases in the format of MC_Evo: <<writer type, reader type, v, bytes, expected>>
   IF D.k # "enum" THEN {}
   ELSE UNION {
-    {<<T, E2, v, Encode(D, v).b, <<"ok", MapVal(D, E2, v)>>>> : v \in Good}
+    {<<T, E2, v, Encode(D, v).b, <<"ok", MapVal(D, E2, Masked(D, v))>>>> : v \in Good}
     \cup {<<E2, T, w, Encode(E2, w).b, <<"BadCtor", <<42>>>>>> : w \in {x \in EnumVals(E2) : IsNew(D, E2, x[2])}}
     : E2 \in Extensions(D)}
 RawCases ==  \* <<bytes, expected error class, constructor name or <<>>>>
